@@ -430,7 +430,7 @@ func (e diskEngine) genSweep(job *Job, r *Rand, c *Case) *Case {
 		k := []string{"enoent", "eisdir", "eio"}[(q/6)%3]
 		c.Faults = []Fault{{Kind: k, On: []string{"stat", "read"}[(q/18)%2], OnPath: f.Path, Nth: 1 + (q/36)%2}}
 	default:
-		c.Faults = []Fault{{Kind: "setbyte", Nth: 0, Target: f.Path, Off: (q / 6) % ln, Mask: []byte{0, '"', '(', ')', '\n', '/'}[(q/6/ln)%6]}}
+		c.Faults = []Fault{{Kind: "setbyte", Nth: 0, Target: f.Path, Off: (q / 6) % ln, Mask: []byte{0, '"', '(', ')', '\n', '/', '#', '@'}[(q/6/ln)%8]}}
 	}
 	c.Note = "sweep"
 	return c
